@@ -154,6 +154,25 @@ def check_printf(record, events_py, verdict_prints, tol=True):
             if got_ev[0] == 'out' and got_ev[1] == text:
                 ok = True
                 break
+        if not ok and got_ev[0] == 'out':
+            # the script computes in binary floating point, the specification exactly: a float argument may
+            # differ in its last bits, which can flip the last printed digit.  Try the neighbouring doubles.
+            floats = [i for i, a in enumerate(args) if isinstance(a, float)][:4]
+            fnamed = [n for n, a in named.items() if isinstance(a, float)][:2]
+            def near(x):
+                return (x, math.nextafter(x, math.inf), math.nextafter(x, -math.inf), x * (1 + 1e-12), x * (1 - 1e-12))
+            for combo in itertools.product(*[near(args[i]) for i in floats], *[near(named[n]) for n in fnamed]):
+                trial, trial_named = list(args), dict(named)
+                for i, z in zip(floats, combo):
+                    trial[i] = z
+                for n, z in zip(fnamed, combo[len(floats):]):
+                    trial_named[n] = z
+                try:
+                    if fmt.format(*trial, **trial_named) == got_ev[1]:
+                        ok = True
+                        break
+                except Exception:
+                    pass
         if not ok:
             return 'printf wrote %r, the source says %r' % (got_ev[1] if len(got_ev) > 1 else got_ev, want)
     return None
